@@ -14,7 +14,8 @@ import ast
 from ..core import rule, AnalysisError
 from ..engine import rx
 from ..engine.facts import dotted, const, src, walk_func, str_value
-from .common import calls
+from ..engine import pattern as P
+from .common import calls, access_paths, pn
 
 # expression classes of the statement's grammar
 EXPR_CLASSES = ["Name", "Constant", "Attribute", "Subscript", "Slice", "Call", "Starred", "UnaryOp", "BinOp", "BoolOp", "Compare",
@@ -111,8 +112,10 @@ def regen_exhaustive(ctx):
     # None cases
     call = meths.get("visit_Call")
     if call is not None and not isinstance(call, ast.Assign):
-        t = src(call)
-        ok = "keyword.arg is None" in t or "keyword.arg is not None" in t or "if keyword.arg" in t or "not keyword.arg" in t or _delegates_to_unparse(call)
+        ok = _delegates_to_unparse(call)
+        for pat_ in ("$k.arg is None", "$k.arg is not None", "not $k.arg"):
+            ok = ok or P.has(call, pat_)
+        ok = ok or any(isinstance(i_, (ast.If, ast.IfExp)) and isinstance(i_.test, ast.Attribute) and i_.test.attr == "arg" for i_ in ast.walk(call))
         ctx.check(ok, "none:Call.keywords.arg", db.where(call), "visit_Call concatenates keyword.arg + '=' without handling keyword.arg is None (`f(**d)`): TypeError at compile time", "handles **kwargs (keyword.arg is None)")
     d = meths.get("visit_Dict")
     if d is not None and not isinstance(d, ast.Assign):
@@ -238,11 +241,11 @@ def idents_fields(ctx):
         if "generators" in fields:
             branches = _branches(h)
             for bi, br in enumerate(branches):
-                t = " ".join(src(s) for s in br)
-                generic = "generic_visit(node)" in t
+                acc = access_paths(h, {pn(h, 1): "node"}, within=br)
+                generic = any(P.has(s_, "self.generic_visit(%s)" % pn(h, 1)) for s_ in br)
                 need = [f for f in fields if f != "generators"]
-                miss = [f for f in need if not generic and ("node.%s" % f) not in t]
-                gen_miss = [f for f in ("target", "iter", "ifs") if not generic and ("comp.%s" % f) not in t and ("gen.%s" % f) not in t and ("generator.%s" % f) not in t]
+                miss = [f for f in need if not generic and ("node.%s" % f) not in acc]
+                gen_miss = [f for f in ("target", "iter", "ifs") if not generic and ("node.generators[].%s" % f) not in acc]
                 key = "fields:%s#branch%d" % (c, bi)
                 if miss or gen_miss:
                     ctx.violation("idents:pyparser.FindIdentifiers.visit_%s#skips:%s" % (c, ",".join(miss + gen_miss)), db.where(h),
@@ -250,25 +253,26 @@ def idents_fields(ctx):
                 else:
                     ctx.ok(key, db.where(h), "covers %s" % (need + ["target", "iter", "ifs"]))
             continue
-        miss = [f for f in fields if ("node.%s" % f) not in src(h) and "generic_visit(node)" not in src(h)]
+        acc = access_paths(h, {pn(h, 1): "node"})
+        miss = [f for f in fields if ("node.%s" % f) not in acc and not P.has(h, "self.generic_visit(%s)" % pn(h, 1))]
         ctx.check(not miss, "fields:" + c, db.where(h), "visit_%s never visits node.%s" % (c, ", node.".join(miss)), "covers %s" % fields)
     vf = meths.get("_visit_function")
     ctx.require(vf is not None and not isinstance(vf, ast.Assign), "FindIdentifiers._visit_function not found")
-    t = src(vf)
+    acc = access_paths(vf, {pn(vf, 1): "node"})
     for f, what in (("posonlyargs", "positional-only parameters"), ("args", "positional parameters"), ("vararg", "*args"), ("kwonlyargs", "keyword-only parameters"), ("kwarg", "**kwargs")):
-        ok = ("args.%s" % f) in t
+        ok = ("node.args.%s" % f) in acc
         if ok:
             ctx.ok("params:" + f, db.where(vf), "bound")
         else:
             ctx.violation("idents:pyparser.FindIdentifiers._visit_function#unbound:" + f, db.where(vf), "_visit_function does not bind %s (arguments.%s): such a parameter of a nested function or lambda is treated as a free name and demanded from the context (spurious NameError under strict_undefined)" % (what, f))
     for f, what in (("defaults", "parameter defaults"), ("kw_defaults", "keyword-only defaults")):
-        ok = ("args.%s" % f) in t
+        ok = ("node.args.%s" % f) in acc
         if ok:
             ctx.ok("defaults:" + f, db.where(vf), "visited")
         else:
             ctx.violation("idents:pyparser.FindIdentifiers._visit_function#unvisited:" + f, db.where(vf), "_visit_function never visits %s (arguments.%s): a name read only there is never fetched from the context" % (what, f))
     # defaults are visited before the parameters are bound and before the scan enters the function
-    dv = [n for n in walk_func(vf) if isinstance(n, ast.For) and ("defaults" in src(n.iter))]
+    dv = [n for n in walk_func(vf) if isinstance(n, ast.For) and any(isinstance(a_, ast.Attribute) and a_.attr in ("defaults", "kw_defaults") for a_ in ast.walk(n.iter))]
     bind = [n for n in walk_func(vf) if isinstance(n, ast.Assign) and dotted(n.targets[0]) == "self.local_ident_stack" and "union" in src(n.value)]
     enter = [n for n in walk_func(vf) if isinstance(n, ast.Assign) and dotted(n.targets[0]) == "self.in_function" and const(n.value) is True]
     if dv and bind and enter:
@@ -384,9 +388,13 @@ def remargin_siblings(ctx):
     else:
         ctx.ok("agreement", db.where(b), "both scanners track %s" % sorted(fa))
     fl = db.func("pygen.PythonPrinter._flush_adjusted_lines")
-    t = src(fl)
-    ctx.check("self._reset_multi_line_flags()" in t and "if self._in_multi_line(entry):" in t and "self.stream.write(entry + '\\n')" in t, "printer.verbatim-inside-strings", db.where(fl), "lines inside a multi-line string are not written unchanged", "lines inside strings written verbatim")
+    ok = P.has(fl, "self._reset_multi_line_flags()") and P.has(fl, "for $e in self.line_buffer:\n    if self._in_multi_line($e):\n        self.stream.write($e + '\\n')\n    else:\n        ...")
+    ctx.check(ok, "printer.verbatim-inside-strings", db.where(fl), "lines inside a multi-line string are not written unchanged", "lines inside strings written verbatim")
     aw = db.func("pygen.adjust_whitespace")
-    t = src(aw)
-    ctx.check("if in_multi_line(line):" in t and "lines.append(line)" in t and "line.expandtabs()" in t, "lexer.verbatim-inside-strings", db.where(aw), "adjust_whitespace alters lines inside multi-line strings", "lines inside strings kept verbatim")
-    ctx.check("stripspace is None and re.search('^[ \\\\t]*[^# \\\\t]', line)" in t, "margin-from-first-code-line", db.where(aw), "the margin is not taken from the first code line", "margin = indentation of the first non-comment line")
+    ok = P.has(aw, "for $l in re.split($rx, %s):\n    if in_multi_line($l):\n        $ls.append($l)\n    else:\n        $l = $l.expandtabs()\n        ..." % pn(aw, 0))
+    ctx.check(ok, "lexer.verbatim-inside-strings", db.where(aw), "adjust_whitespace alters lines inside multi-line strings", "lines inside strings kept verbatim")
+    ok = False
+    for _n, env_ in P.find(aw, "if $s is None and re.search($rx, $l):\n    $s = re.match($rx2, $l).group(1)"):
+        r1, r2 = const(env_["rx"][1]), const(env_["rx2"][1])
+        ok = r1 in ("^[ \\t]*[^# \\t]", "^[ \\t]*[^# \\t\\r\\n]") and r2 in ("^([ \\t]*)", "([ \\t]*)")
+    ctx.check(ok, "margin-from-first-code-line", db.where(aw), "the margin is not taken from the first code line", "margin = indentation of the first non-comment line")
